@@ -3,7 +3,9 @@ package props
 import (
 	"fmt"
 	"go/ast"
+	"go/token"
 	"go/types"
+	"strings"
 
 	"verif/engine/core"
 )
@@ -273,4 +275,83 @@ func decodedListsDeliveredAsDecoded(c *core.Ctx) {
 		}
 	}
 	c.Check(n >= 2, rule, "assignments of the UPDATE's NLRI lists found", 0, fmt.Sprintf("found %d, expected the two in decodeUpdateMsg", n))
+}
+
+// withdrawalsAppliedBeforeAnnouncements: within one UPDATE the withdrawn NLRI are applied before the announced ones, in
+// the classic IPv4 fields and in the multiprotocol attributes alike — a prefix named in both ends up installed (RFC
+// 4271 §4.3).  Rule: in the functions that dispatch an UPDATE to the per-field handlers no call that withdraws
+// (RemovePath reachable, AddPath not) is reachable after a call that announces (AddPath reachable).
+func withdrawalsAppliedBeforeAnnouncements(c *core.Ctx) {
+	const rule = "withdrawals-applied-before-announcements"
+	p := c.P
+	reaches := func(g *core.Fn, name string) bool {
+		for _, r := range p.ReachableFns(g) {
+			if r.Decl.Body == nil || r.Pkg != g.Pkg {
+				continue
+			}
+			found := false
+			ast.Inspect(r.Decl.Body, func(n ast.Node) bool {
+				if call, ok := n.(*ast.CallExpr); ok {
+					if se, ok := call.Fun.(*ast.SelectorExpr); ok && se.Sel.Name == name {
+						if t := r.Pkg.TypesInfo.TypeOf(se.X); t != nil && strings.HasSuffix(t.String(), "routingtable.AdjRIBIn") {
+							found = true
+						}
+					}
+				}
+				return true
+			})
+			if found {
+				return true
+			}
+		}
+		return false
+	}
+	n := 0
+	for _, fname := range []string{"processUpdate", "multiProtocolUpdates"} {
+		f := c.MustFunc(srv + ".(*fsmAddressFamily)." + fname)
+		if f == nil {
+			continue
+		}
+		c.Analysed(f)
+		var ann, wd []*ast.CallExpr
+		ast.Inspect(f.Decl.Body, func(nd ast.Node) bool {
+			call, ok := nd.(*ast.CallExpr)
+			if !ok {
+				return true
+			}
+			g := p.FnOf(core.Callee(f.Pkg, call))
+			if g == nil || g.Decl.Body == nil || core.RecvName(g.Obj) != "fsmAddressFamily" {
+				return true
+			}
+			a, w := reaches(g, "AddPath"), reaches(g, "RemovePath")
+			switch {
+			case a && !w:
+				ann = append(ann, call)
+			case w && !a:
+				wd = append(wd, call)
+			}
+			return true
+		})
+		if len(ann) == 0 || len(wd) == 0 {
+			continue
+		}
+		n++
+		g := p.CFG(f)
+		bad := ""
+		var at token.Pos = f.Decl.Pos()
+		for _, a := range ann {
+			for _, w := range wd {
+				hits := core.PathAvoidingFrom(g,
+					func(m ast.Node) bool { return core.NodeHas(m, func(x ast.Node) bool { return x == ast.Node(a) }) },
+					func(ast.Node) bool { return false },
+					func(m ast.Node) bool { return core.NodeHas(m, func(x ast.Node) bool { return x == ast.Node(w) }) })
+				if len(hits) > 0 {
+					bad, at = core.ExprString(w.Fun)+" after "+core.ExprString(a.Fun), w.Pos()
+				}
+			}
+		}
+		c.Check(bad == "", rule, f.Name()+" applies the withdrawn NLRI before the announced ones", at,
+			"the handler that withdraws runs after the one that announces ("+bad+"): an UPDATE naming a prefix in both lists leaves it removed in this encoding, while the other encoding leaves it installed")
+	}
+	c.Check(n >= 2, rule, "dispatch functions with both kinds of handler", 0, fmt.Sprintf("found %d, expected processUpdate (IPv4 fields) and multiProtocolUpdates", n))
 }
